@@ -4,7 +4,7 @@
 From Coq Require Import List ZArith QArith Bool.
 From PV Require Import lib.Sx lib.Str lib.Result.
 From PV Require Import model.Base model.TimeRead model.TimeWrite.
-From PV Require model.TextWrite model.TextRead.
+From PV Require model.TextWrite model.TextRead model.DfxpWriteDoc model.DfxpReadLines.
 Import ListNotations.
 Open Scope Z_scope.
 
@@ -113,6 +113,8 @@ Definition hop_doc (f : fmt) (cs : list (Z * Z * list str)) : result (list (Z * 
   | FSrt => srt_read (srt_write_doc cs)
   | FMdvd => mdvd_read (mdvd_write cs)
   | FVtt => vtt_read_doc (vtt_write_doc cs)
+  (* wave 7: the DFXP document (DfxpWriteDoc, one language "en-US") read by the string-level reader model *)
+  | FDfxp => DfxpReadLines.dfxp_read_lines (DfxpWriteDoc.dfxp_write_doc (lit "en-US") cs)
   | _ => Err ENotImplemented
   end.
 Fixpoint run_doc (chain : list fmt) (cs : list (Z * Z * list str)) : result (list (Z * Z * list str)) :=
